@@ -328,6 +328,8 @@ def run(chk, replay=None):
     tier = chk.tier
     rng = chk.rng
     proofs_ok = chk.proofs(TARGETS)
+    if proofs_ok and tier == "thorough":
+        chk.coqchk()
     ok, out = lib.harness_build()
     if not ok:
         chk.violation("harness does not build against /repo", {"broken": "harness build", "log": out[-3000:]}, False)
